@@ -8,6 +8,8 @@ base = json.load(open('/root/.vp/BASELINE.json'))
 fd, xml = tempfile.mkstemp(suffix='.xml'); os.close(fd)
 env = dict(os.environ, PYTHONDONTWRITEBYTECODE='1')
 env.pop('GIN_VERIF', None)
+if repo != '/repo':
+    env['PYTHONPATH'] = repo
 cmd = base['cmd'].replace('cd /repo', 'cd ' + repo).replace('<file>', xml)
 p = subprocess.run(cmd, shell=True, capture_output=True, text=True, env=env)
 passed = set()
